@@ -197,9 +197,9 @@ func assertSame(tag string, rr realRun, ref *refbcl.Result) {
 // asm is a tiny assembler for hand-written bytecode.
 type asm struct{ b []byte }
 
-func (a *asm) op(o byte) *asm { a.b = append(a.b, o); return a }
-func (a *asm) uv(x int) *asm  { a.b = refbcl.AppendUvarint(a.b, uint64(x)); return a }
-func (a *asm) u16(x int) *asm { a.b = append(a.b, byte(x>>8), byte(x)); return a }
+func (a *asm) op(o byte) *asm  { a.b = append(a.b, o); return a }
+func (a *asm) uv(x int) *asm   { a.b = refbcl.AppendUvarint(a.b, uint64(x)); return a }
+func (a *asm) u16(x int) *asm  { a.b = append(a.b, byte(x>>8), byte(x)); return a }
 func (a *asm) raw(x byte) *asm { a.b = append(a.b, x); return a }
 
 func (a *asm) dump(consts ...any) *refbcl.Dump {
